@@ -255,7 +255,7 @@ impl Prop for Sem {
     }
     fn cases(&self, tier: Tier) -> u64 {
         match tier {
-            Tier::Quick => 12_000,
+            Tier::Quick => 60_000,
             Tier::Thorough => 400_000,
         }
     }
